@@ -76,7 +76,7 @@ TABLE = {
     "C15": dict(
         category="exploration", design_ref="3/C15",
         technique="Hypothesis-generated headers with exactly one rule violation (or none) per case, rule-based three-valued oracle (must reject / must accept / don't care); consumption-side tokens validly signed or encrypted by the independent reference over exactly that header",
-        text="~60 000 generated headers per quick run: each registered / algorithm-specific / caller-registered / unknown parameter with a value of every JSON type, in protected, unprotected "
+        text="~28 000 generated headers per quick run: each registered / algorithm-specific / caller-registered / unknown parameter with a value of every JSON type, in protected, unprotected "
              "and per-recipient position, for JWS (compact, flattened, general, RFC 7797) and JWE (compact, flattened, general over dir, A128KW, ECDH-ES, PBES2, A128GCMKW), producing and "
              "consuming, strict checking on and off; one violated rule per case isolates each check, ~20 000 valid headers (caller-registered parameter, strict off) must be accepted. "
              "All cases of a shard run in one process so that registry state leaking between registries shows. Exploration over generated cases.",
@@ -85,7 +85,7 @@ TABLE = {
     "C06": dict(
         category="exploration", design_ref="3/C06",
         technique="enumeration of the finite (algorithm x violated clause x operation x entry point x key hand-over) matrix with Hypothesis-generated key material, must-reject oracle with a suitable-key control per cell; reference-forged MAC-with-public-key tokens; warning oracle for PEM/SSH text imported as oct",
-        text="~9000 cells per quick run, each violating exactly one clause of the statement (key type, curve, size, use, key_ops, private material) over all 35 algorithms, "
+        text="~16 000 cells per quick run, each violating exactly one clause of the statement (key type, curve, size, use, key_ops, private material) over all 35 algorithms, "
              "sign/verify/encrypt/decrypt, compact / flattened / general / RFC 7797 / jwt / add_recipient-attached entry points and key / key set / callable hand-over; consumption-side "
              "cells present the same key material with unsuitable metadata (or hand-built wrong-size tokens) so only the clause under test can cause the refusal; a control with the "
              "suitable key runs per cell. ~3400 HS* tokens MACed with public encodings of the verifier's key must be refused; ~400 PEM/OpenSSH encodings imported as oct must warn.",
@@ -94,7 +94,7 @@ TABLE = {
     "C05": dict(
         category="exploration", design_ref="3/C05",
         technique="complete enumeration of the finite configuration matrix (name x allow-list shape x passing style x operation x entry point) plus Hypothesis rule-based state machine over long-lived registries, model-based oracle; consumed tokens minted by the independent reference",
-        text="Part A enumerates ~11 000 cells: every registered and several unknown / near-miss / non-string alg, enc and zip names x 7 allow-list shapes x algorithms=/registry=/default x "
+        text="Part A enumerates ~16 000 cells: every registered and several unknown / near-miss / non-string alg, enc and zip names x 7 allow-list shapes x algorithms=/registry=/default x "
              "sign/verify/encrypt/decrypt x compact/flattened/general/RFC 7797/jwt entry points, each compared with the model (allowed iff listed, or recommended when no list; 'none' never "
              "verifies; refused well-typed names raise UnsupportedAlgorithmError). Part B runs 900 generated histories x 30 steps over shared registry objects created with different lists to "
              "expose state leaking between calls. The matrix is exhaustive for the listed shapes; histories are sampled.",
@@ -103,7 +103,7 @@ TABLE = {
     "C09": dict(
         category="exploration", design_ref="3/C09",
         technique="Hypothesis-generated claims/headers/datetimes with an encode-decode round-trip oracle (typed JSON equality, NumericDate model) and a must-raise oracle for validly signed non-object payloads minted by the reference",
-        text="~11 000 generated JWT round trips per quick run over JWS (14 algs) and JWE (17 algs x 8 encs) transports, key / key set / callable, keys imported from JWK/PEM/DER, claims with unicode, "
+        text="~15 000 generated JWT round trips per quick run over JWS (14 algs) and JWE (17 algs x 8 encs) transports, key / key set / callable, keys imported from JWK/PEM/DER, claims with unicode, "
              "nesting, big ints, floats and naive/UTC/offset datetimes (process TZ set to Asia/Tokyo so local-time slips show), explicit/implicit typ, caller header immutability; ~4800 "
              "validly signed or encrypted payloads that are not JSON objects must raise InvalidPayloadError. Exploration over generated cases.",
         note="naive datetimes are taken as UTC (library convention); integrity of the transport itself is decided by C01/C02 which use jwt.decode as an entry point",
@@ -111,7 +111,7 @@ TABLE = {
     "C10": dict(
         category="exploration", design_ref="3/C10",
         technique="Hypothesis-generated claims/requests with boundary values placed by construction, compared with a reference validator written from the statement (three-valued oracle: accept / reject with error class / don't care)",
-        text="~10^5 generated (claims, request options, now, leeway) cases per quick run plus the complete time-boundary grid (8 offsets x exp/nbf/iat x int/float x leeway 0/1/60 x "
+        text="~60 000 generated (claims, request options, now, leeway) cases per quick run plus the complete time-boundary grid (8 offsets x exp/nbf/iat x int/float x leeway 0/1/60 x "
              "explicit/implicit now); acceptance must coincide with the statement's rules and the raised error class must belong to a violated rule; claims must stay unmodified. "
              "Regions the statement leaves open (exp == now-leeway, bool/NaN times, value+values conflicts, aud corner cases, empty option dict, cross-type Python equality) are counted as DONT_CARE.",
         note="oracle is /verif/checks/c10_claims.py:oracle(); the implicit clock is patched inside joserfc.rfc7519.registry for the duration of the constructor",
